@@ -21,6 +21,7 @@
 #include <string>
 #include <vector>
 #include <functional>
+#include <type_traits>
 #define GLM_FORCE_UNRESTRICTED_GENTYPE
 #define GLM_ENABLE_EXPERIMENTAL
 #include <glm/vec2.hpp>
@@ -140,7 +141,31 @@ struct LineReg {
 
   template<glm::qualifier Q> static glm::vec<4, int, Q> ldi(int const* x) { return glm::vec<4, int, Q>(x[0], x[1], x[2], x[3]); }
   template<glm::qualifier Q> static glm::vec<4, unsigned, Q> ldu(unsigned const* x) { return glm::vec<4, unsigned, Q>(x[0], x[1], x[2], x[3]); }
-  template<class S, class T, glm::qualifier Q> static void sti(S* o, glm::vec<4, T, Q> const& v) { for (int i = 0; i < 4; ++i) o[i] = (S)v[i]; }
+  template<int L, class S, class T, glm::qualifier Q> static void sti(S* o, glm::vec<L, T, Q> const& v) { for (int i = 0; i < L; ++i) o[i] = (S)v[i]; }
+  template<glm::qualifier Q> static int iarg(int x) { return x; }
+  template<glm::qualifier Q> static unsigned iarg(unsigned x) { return x; }
+  // constructors taking C++ integers: first the line at the literal arguments the tracer uses, then seeded arguments
+  // (small, around 2^24 where int -> float starts to round, full range)
+  template<class S, class A, class Fn> void run_lit(std::string const& op, int nargs, int nout, Fn f) {
+    if (!want(op)) return;
+    Rng r(seed ^ hash_name(op)); A a[4]; std::vector<S> out(nout);
+    for (int k = 0; k <= count; ++k) {
+      for (int i = 0; i < nargs; ++i) {
+        if (k == 0) { int v = c03::C03_LIT[i]; a[i] = std::is_unsigned<A>::value && v < 0 ? (A)(-v) : (A)v; }
+        else switch (k % 4) { case 0: a[i] = (A)((int)(r.next() % 41) - 20); break; case 1: a[i] = (A)((int)(16777216 + (int)(r.next() % 65) - 32) * ((r.next() & 1) ? 1 : -1)); break; default: a[i] = (A)(uint32_t)r.next(); }
+      }
+      for (int j = 0; j < nout; ++j) out[j] = S(0);
+      f(a, out.data());
+      printf("%s", op.c_str()); for (int i = 0; i < nargs; ++i) printf(" %u", (uint32_t)a[i]);
+      printf(" ->"); for (int j = 0; j < nout; ++j) put(out[j], true); printf("\n");
+    }
+  }
+  template<class S, class A, class Fn> void lit_fam(std::string const& op, int nargs, int nout, Fn f) { run_lit<S, A>(op, nargs, nout, [f](A const* a, S* o) { f(a, o, QT<C03_HP>()); }); }
+  template<class S, class A, class Fn> void lit_fam_q(std::string const& op, int nargs, int nout, Fn f) {
+    lit_fam<S, A>(op, nargs, nout, f);
+    run_lit<S, A>(op + "_mediump", nargs, nout, [f](A const* a, S* o) { f(a, o, QT<C03_MP>()); });
+    run_lit<S, A>(op + "_lowp", nargs, nout, [f](A const* a, S* o) { f(a, o, QT<C03_LP>()); });
+  }
 #if C03_SIMD
   template<class S> static __m128i ldki(S const* x) { return _mm_loadu_si128((__m128i const*)x); }
   template<class S> static void stki(S* o, __m128i v) { _mm_storeu_si128((__m128i*)o, v); }
